@@ -57,12 +57,12 @@ def gen_case(rng, params, index):
     if rng.chance(0.03):
         kind, body = rng.choice(REAL_REJECT_SHAPES)
         qml = "import qmluic.QtWidgets\nQWidget {\n    id: root\n    QVBoxLayout {\n        %s\n    }\n}\n" % body
-        return {"kind": "rejection", "shape": kind, "expect_reject": True, "qml": qml, "type_name": "Doc"}
+        return {"kind": "rejection", "shape": kind, "expect_reject": True, "qml": qml, "type_name": "Doc", "doc_first": rng.chance(0.5)}
     if rng.chance(0.1):
         kind, line = rng.choice(REJECT_SHAPES + ACCEPT_TWINS)
         qml = ("import qmluic.QtWidgets\nQWidget {\n    id: root\n    QVBoxLayout {\n        SimWidget {\n            id: w1\n            %s\n        }\n"
                "        SimWidget { id: w2; outFlag: w1.flag }\n    }\n}\n" % line)
-        return {"kind": "rejection", "shape": kind, "expect_reject": (kind, line) in REJECT_SHAPES, "qml": qml, "type_name": "Doc"}
+        return {"kind": "rejection", "shape": kind, "expect_reject": (kind, line) in REJECT_SHAPES, "qml": qml, "type_name": "Doc", "doc_first": rng.chance(0.5)}
     if rng.chance(0.15):
         # functions with 2-5 observers (one block and several blocks), chains of two hops: every observer slot must
         # survive re-pointing and death/re-creation of what it watches
@@ -82,7 +82,8 @@ def run_case(case, env):
     probes = stats["probes"]
     if case["kind"] == "rejection":
         wd = env.fresh_dir("qt")
-        tr = build.translate(env, case["qml"], case["type_name"], wd)
+        # a refused document is refused wherever it stands among the sources of the invocation
+        tr = build.translate(env, case["qml"], case["type_name"], wd, doc_first=bool(case.get("doc_first")))
         stats["runs"] += 1
         viol = []
         if case["expect_reject"]:
